@@ -133,6 +133,12 @@ AdmissibleSeq(n0, steps, allocated) == allocated <= steps * (K * n0 + C)
 PrefixRunOK(cut, consumedFull, olderComplete, out) ==
   (cut < consumedFull /\ cut \notin olderComplete) => out = "failed"
 
+\* The valid encodings of the property are the complete outputs of the writers.  A decoder of a
+\* self-delimiting format is the inverse of its writer: run on the n0 bytes its writer produced for one
+\* object it fetches all of them.  (A decoder that stops c < n0 bytes in is, being deterministic, a decoder
+\* that returns an object for the strict prefix of c bytes: PrefixRunOK with consumedFull = n0 rejects it.)
+WholeRunOK(n0, consumed) == consumed = n0
+
 (***************************************************************************)
 (* Type tags.  A tagged object starts with a code that selects its decoder *)
 (* from a registry.  A code the registry does not hold has no decoder: the *)
